@@ -147,7 +147,11 @@ def run_pieces(b, views, name, ckpt, pieces):
     events = []
     for t in pieces:
         events += b({"name": name, "method": "elapse", "payload": float(t)}, store)
-    return {"ticks": tick_table(events), "views": {vn: dump_view(v(store)) for vn, v in views.items()}}
+    # "stacks" are part of the visible status also where no view of the skill shows them (they decide what its next
+    # reducers do): the stack counters among the skill's own entities
+    stacks = {k: ent["payload"]["stack"] for k, ent in store.save().items()
+              if k.startswith("." + name + ".") and isinstance(ent.get("payload"), dict) and "stack" in ent["payload"]}
+    return {"ticks": tick_table(events), "views": {vn: dump_view(v(store)) for vn, v in views.items()}, "stacks": stacks}
 
 
 def outcome(b, views, name, ckpt, pieces):
